@@ -731,16 +731,18 @@ def field_lb(F, adt, fld, depth, seen):
     return min(bs)
 
 
-def expr_lb(F, f, e, depth=0, seen=frozenset()):
-    """constant lower bound of an unsigned integer expression (None = unknown)"""
+def expr_lb(F, f, e, depth=0, seen=frozenset(), penv=None):
+    """constant lower bound of an unsigned integer expression (None = unknown); penv: assumed bounds of f's parameters"""
     e = strip_site(e) if isinstance(e, tuple) else e
     if not isinstance(e, tuple) or not e or depth > 24:
         return None
     k = e[0]
+    if penv is not None and k == "param" and e[1] in penv:
+        return penv[e[1]]
     if k == "const" and isinstance(e[1], int):
         return e[1]
     if k == "cast":
-        return expr_lb(F, f, e[1], depth + 1, seen)
+        return expr_lb(F, f, e[1], depth + 1, seen, penv)
     if k == "param":
         return param_lb(F, f, e[1], depth + 1, set(seen))
     if k == "field" and isinstance(e[1], tuple):
@@ -761,7 +763,7 @@ def expr_lb(F, f, e, depth=0, seen=frozenset()):
         return None
     if k == "binop":
         op, a, b = e[1], e[2], e[3]
-        la, lb = expr_lb(F, f, a, depth + 1, seen), expr_lb(F, f, b, depth + 1, seen)
+        la, lb = expr_lb(F, f, a, depth + 1, seen, penv), expr_lb(F, f, b, depth + 1, seen, penv)
         if op in ("Add", "AddUnchecked", "AddWithOverflow"):
             return la + lb if la is not None and lb is not None else None
         if op in ("Sub", "SubUnchecked", "SubWithOverflow"):
@@ -786,27 +788,36 @@ def expr_lb(F, f, e, depth=0, seen=frozenset()):
         return None
     if k == "call":
         nm, args = e[1], e[2]
+        if (nm.endswith("Iterator::fold") or (nm.endswith(">::fold") and "Iterator" in nm)) and len(args) == 3 and args[2][0] == "agg" and args[2][1] in F.fns:
+            # a fold whose step never lowers the accumulator's bound: by induction the result is bounded by the initial value's
+            # bound (zero steps give the initial value itself); the element is an unsigned value of unknown size
+            L = expr_lb(F, f, args[1], depth + 1, seen, penv)
+            c = F.fns[args[2][1]]
+            if L is None or c.argc < 3:
+                return None
+            step = expr_lb(F, c, c.origin_local(0), depth + 1, seen, {2: L, 3: 0})
+            return L if step is not None and step >= L else None
         if (nm.endswith("cmp::Ord::max") or nm.endswith("cmp::max")) and len(args) == 2:
-            bs = [expr_lb(F, f, x, depth + 1, seen) for x in args]
+            bs = [expr_lb(F, f, x, depth + 1, seen, penv) for x in args]
             ks = [x for x in bs if x is not None]
             return max(ks) if ks else None
         if (nm.endswith("cmp::Ord::min") or nm.endswith("cmp::min")) and len(args) == 2:
-            bs = [expr_lb(F, f, x, depth + 1, seen) for x in args]
+            bs = [expr_lb(F, f, x, depth + 1, seen, penv) for x in args]
             return min(bs) if all(x is not None for x in bs) else None
         if nm.endswith("::next_power_of_two") and len(args) == 1:
-            la = expr_lb(F, f, args[0], depth + 1, seen)
+            la = expr_lb(F, f, args[0], depth + 1, seen, penv)
             return max(la or 0, 1)
         if nm.endswith("::clamp") and len(args) == 3:
-            return expr_lb(F, f, args[1], depth + 1, seen)
+            return expr_lb(F, f, args[1], depth + 1, seen, penv)
         if nm.endswith("::saturating_sub") and len(args) == 2:
-            la, ub = expr_lb(F, f, args[0], depth + 1, seen), upper_const(F, f, args[1])
+            la, ub = expr_lb(F, f, args[0], depth + 1, seen, penv), upper_const(F, f, args[1])
             return max(la - ub, 0) if la is not None and ub is not None else 0
         if nm.endswith(("::saturating_add", "::wrapping_add")) and len(args) == 2 and nm.endswith("::saturating_add"):
-            la, lb = expr_lb(F, f, args[0], depth + 1, seen), expr_lb(F, f, args[1], depth + 1, seen)
+            la, lb = expr_lb(F, f, args[0], depth + 1, seen, penv), expr_lb(F, f, args[1], depth + 1, seen, penv)
             return la + lb if la is not None and lb is not None else None
         return None
     if k == "phi":
-        bs = [expr_lb(F, f, x, depth + 1, seen) for x in e[1]]
+        bs = [expr_lb(F, f, x, depth + 1, seen, penv) for x in e[1]]
         return min(bs) if bs and all(x is not None for x in bs) else None
     return None
 
